@@ -3001,6 +3001,17 @@ impl Block {
         //
         if let Some(previous_block) = blockchain.blocks.get(&self.previous_block_hash) {
             //
+            // block id must follow the id of the previous block
+            //
+            if Some(self.id) != previous_block.id.checked_add(1) {
+                error!(
+                    "ERROR: block id : {:?} does not follow the id of the previous block : {:?}",
+                    self.id, previous_block.id
+                );
+                return false;
+            }
+
+            //
             // ghost blocks
             //
             if let BlockType::Ghost = previous_block.block_type {
